@@ -627,6 +627,9 @@ func (l *commitLog) Truncate(offset int64) error {
 	}
 	crashPoint("truncate.before-epoch-update")
 	activeSegment := segments[len(segments)-1]
+	// The segment was sealed when it was rolled or when it replaced the
+	// truncated one.
+	activeSegment.Unseal()
 	atomic.StorePointer((*unsafe.Pointer)(unsafe.Pointer(&l.vActiveSegment)),
 		unsafe.Pointer(activeSegment))
 	l.segments = segments
